@@ -108,8 +108,9 @@ impl TxDependency {
                 if dependent.onboard {
                     if pop_next && tx == txid + 1 && {
                         vpoint!(DEPX, "DX_Load");
-                        vemit!(DEPX, "DX_Load", "index" => self.index.load(Ordering::Relaxed));
-                        self.index.load(Ordering::Relaxed) > tx
+                        let index = self.index.load(Ordering::Relaxed);
+                        vemit!(DEPX, "DX_Load", "index" => index);
+                        index > tx
                     } {
                         dependent.onboard = false;
                         next = Some(tx);
@@ -161,8 +162,9 @@ impl TxDependency {
         let mut state = self.dependent_state[txid].lock();
         vemit!(DEP, "DK_Lock", "tx" => txid);
         vpoint!(DEPX, "DX_Committed");
-        vemit!(DEPX, "DX_Committed", "committed" => commit_idx.get());
-        if txid > commit_idx.get() {
+        let committed = commit_idx.get();
+        vemit!(DEPX, "DX_Committed", "committed" => committed);
+        if txid > committed {
             state.dependency = Some(txid);
         }
         if !state.onboard {
@@ -173,7 +175,7 @@ impl TxDependency {
             self.index.fetch_min(txid, Ordering::Relaxed);
             vemit!(DEPX, "DX_Min", "to" => txid);
         }
-        vemit!(DEP, "DK_KeyTx", "tx" => txid, "committed" => commit_idx.get(),
+        vemit!(DEP, "DK_KeyTx", "tx" => txid, "committed" => committed,
             "dep" => state.dependency);
     }
 
